@@ -270,13 +270,13 @@ def check_heralds(env, acc, maxlen):
 
 
 def check_conversions(env, acc):
-    grid = [0, 1e-12, 1e-6, 0.01, 0.1, 0.25, 0.5, 0.75, 0.9, 0.99, 0.999999] + kernel.generic_reals(env.seed + 3, 5, 0, 1)
+    grid = [0, 1e-12, 1e-9, 1e-6, 1e-5, 1e-4, 1e-3, 2e-3, 2.3e-3, 0.01, 0.1, 0.25, 0.5, 0.75, 0.9, 0.99, 0.999999] + kernel.generic_reals(env.seed + 3, 5, 0, 1)
     for x in grid:
         acc.tick("executions"); acc.tick("transitions")
         db = lw.decimal_to_db_loss(x)
-        if db < 0 or abs(lw.db_loss_to_decimal(db) - x) > 1e-12 * max(1, abs(x)) + 1e-15:
+        if db < 0 or abs(lw.db_loss_to_decimal(db) - x) > 1e-14:
             acc.violation("decimal_db_round_trip", {"decimal": x, "seed": env.seed}, {"db": db, "back": lw.db_loss_to_decimal(db)})
-    for db in [0, 0.1, 1, 3, 10, 20, 60, -3, -10] + [10 * v for v in kernel.generic_reals(env.seed + 4, 4, 0, 1)]:
+    for db in [0, 1e-6, 1e-4, 1e-3, 5e-3, 9.9e-3, 0.01, 0.0101, 0.1, 1, 3, 10, 20, 60, -3, -10, -5e-3] + [10 * v for v in kernel.generic_reals(env.seed + 4, 4, 0, 1)]:
         acc.tick("executions"); acc.tick("transitions")
         d = lw.db_loss_to_decimal(db)
         if not 0 <= d < 1 or abs(lw.decimal_to_db_loss(d) - abs(db)) > 1e-9 * max(1, abs(db)):
